@@ -107,6 +107,7 @@ func lifeFamily(id, tier string, p map[string]bool, tweak func(kind string, o *L
 	c := baseLife(id, tier, p)
 	c.ID = id + "-life-rooted"
 	c.Roots = []string{"R2", "R3"}
+	c.Update, c.Cancel = true, true // updates (and their cancellation / timeout rollback) on top of a renewed model
 	c.Depth = 5
 	if tier == "thorough" {
 		c.Depth = 7
@@ -149,7 +150,7 @@ func init() {
 				return out
 			}})
 	}
-	reg("C04", false, func(k string, o *LifeOpts) {
+	reg("C04", true, func(k string, o *LifeOpts) {
 		if k == "r1" {
 			o.Mid = true
 		}
@@ -162,13 +163,15 @@ func init() {
 			sp.NoOwnerPA, sp.NoPlain, sp.Drain, sp.Migrate, sp.Renew = true, true, false, false, false
 			sp.Cancel = true
 			sp.Depth = 5
-			return append(out, LifeScenario(sp))
+			out = append(out, LifeScenario(sp))
+			return append(out, TimeoutFamily("C06", tier, props("C06"))...)
 		}})
 	for _, id := range []string{"C07", "C14"} {
 		id := id
 		register(&Check{ID: id, Level: "model_checking", Workers: 16, Rule: fmt.Sprintf(lifeRule, ", (c) capacity pledge add/remove around the free-capacity and rounding boundaries interleaved with store/complete/terminate/expiry"), Assumptions: lifeAssumptions,
 			Scenarios: func(tier string) []*engine.Scenario {
-				return append(lifeFamily(id, tier, props(id), nil), LifeScenario(capLife(id, tier, props(id))))
+				out := append(lifeFamily(id, tier, props(id), nil), LifeScenario(capLife(id, tier, props(id))))
+				return append(out, TimeoutFamily(id, tier, props(id))...)
 			}})
 	}
 	register(&Check{ID: "C15", Level: "exploration", Workers: 16,
@@ -264,7 +267,11 @@ func init() {
 		Scenarios:   func(tier string) []*engine.Scenario { return C18Scenarios(tier) },
 		Extra:       func(tier string, shard, of int) ExtraResult { return GenesisExtra(tier, shard, of) }})
 	reg("C13", true, nil)
-	reg("C11", true, nil)
+	reg("C11", true, func(k string, o *LifeOpts) {
+		if k == "rooted" || k == "r1" {
+			o.ForcePush = true // force-push replaces the version: the model's lifetime must follow the new shards
+		}
+	})
 	reg("C12", true, nil)
 	upd := func(k string, o *LifeOpts) {
 		o.Update = true
